@@ -1,19 +1,21 @@
 #!/bin/sh
 # usage: mutcheck.sh <ID> <patch.diff> [-R] [tier] — run a check against a scratch copy of /repo with a patch applied
 # (or reverse-applied with -R, e.g. to re-introduce a fixed defect). Never touches /repo; no evidence is written.
+# MUTTAG (default mut) names the scratch copy /tmp/<tag>_repo and the build directory .build/plain-<tag>: runs with different tags can go in parallel.
 # Files patched in this or the previous run are touched so that the incremental build (mtime based) recompiles them.
 set -e
 ID=$1; PATCH=$2; REV=""; TIER=quick
 [ "$3" = "-R" ] && REV=-R
 [ -n "$4" ] && TIER=$4
-S=/tmp/mut_repo; rm -rf $S
+TAG=${MUTTAG:-mut}
+S=/tmp/${TAG}_repo; rm -rf $S
 rsync -a --exclude _build --exclude .git /repo/ $S/
 (cd $S && patch -p1 $REV --no-backup-if-mismatch -s < "$PATCH")
-mkdir -p /verif/.build/plain-mut
-LAST=/verif/.build/plain-mut/last_patched
+mkdir -p /verif/.build/plain-$TAG
+LAST=/verif/.build/plain-$TAG/last_patched
 grep '^+++ ' "$PATCH" | sed 's|^+++ [ab]/||; s|\t.*||' > $LAST.new
 for f in $(cat $LAST.new $LAST 2>/dev/null | sort -u); do [ -f "$S/$f" ] && touch "$S/$f"; done
 mv $LAST.new $LAST
 cd /verif
-VERIF_REPO=$S VERIF_BUILD_TAG=mut VERIF_NO_EVIDENCE=1 ./check $ID --tier $TIER | tail -6 || true
+VERIF_REPO=$S VERIF_BUILD_TAG=$TAG VERIF_NO_EVIDENCE=1 ./check $ID --tier $TIER | tail -6 || true
 rm -rf $S
